@@ -73,9 +73,11 @@ func (rows *leveldbRows) Clear() {
 	if err := it.Error(); err != nil {
 		panic(err)
 	}
+	verifPoint("rows.clear.beforeWrite", nil)
 	if err := rows.db.Write(batch, nil); err != nil {
 		panic(err)
 	}
+	verifPoint("rows.clear.afterWrite", nil)
 }
 
 func (rows *leveldbRows) Close() {
